@@ -191,6 +191,8 @@ def run(chk):
     if res.vacuous_actions():
         raise MachineryError(f"vacuous: {res.vacuous_actions()}")
     chk.exhaustive = True
+    from . import pathpen_check
+    pathpen_check.run(chk, thorough=not quick)   # the pen every glyf outline is drawn through (PathPen.tla)
     recs = res.records
     if len(recs) < 100:
         raise MachineryError("too few forests")
